@@ -40,6 +40,14 @@ def parseUint64 (s : Bytes) : Option Nat :=
     if v < 2^64 then some v else none
   else none
 
+/-- `strconv.ParseUint(s, 10, 63)`: non-empty, digits only (no sign), value < 2^63. -/
+def parseUint63 (s : Bytes) : Option Nat :=
+  if s.isEmpty then none
+  else if s.all isDigit then
+    let v := decVal s
+    if v < 2^63 then some v else none
+  else none
+
 /-- `strconv.ParseInt(s, 10, 64)`: optional sign, non-empty digits, range check. -/
 def parseInt64 (s : Bytes) : Option Int :=
   match s with
